@@ -18,6 +18,14 @@ def run(rep, tier, seed, rng):
             nfiles += 1
             req = [b["out"] for b in r["impl"]["builds"]]
             _, clash = mc.download_dirs(c[0])
+            # one (builder, app) pair is configured once: two apps of one name on a builder's chain would both
+            # claim <bindir>/<app>.elf (repaired by 94ae0f6: the nearer definition shadows the other)
+            conf = r["impl"].get("configuring") or []
+            twice = sorted({p for p in conf if conf.count(p) > 1})
+            if twice:
+                rep.violation("the same (builder, app) is configured twice, both builds claim one output file: %s" % (twice[:3],),
+                              gen_common.replay_data(r, clause="build-configured-twice", detail=str(twice[:3])), found_input=True)
+                continue
             for clause, detail, user in mc.wf_manifest(r["impl_parsed"], req):
                 if clause == "output-produced-twice" and any(mc.norm(detail).startswith(d + "/") for d in clash):
                     ndlclash += 1       # two module definitions share a download directory: known finding K06:download-dir-clash
